@@ -36,15 +36,15 @@ class BCPoint:
         if BC <= 0:
             raise ValueError('Ballistic coefficient must be positive')
 
-        if Mach and V:
+        if Mach and V is not None:
             raise ValueError("You cannot specify both 'Mach' and 'V' at the same time")
 
-        if not Mach and not V:
+        if not Mach and V is None:
             raise ValueError("One of 'Mach' and 'V' must be specified")
 
         self.BC = BC
         self.V = PreferredUnits.velocity(V or 0)
-        if V:
+        if V is not None:
             self.Mach = (self.V >> Velocity.MPS) / self._machC()
         elif Mach:
             self.Mach = Mach
